@@ -17,85 +17,7 @@ func checkC10(c *Check) {
 	l := c.L
 
 	// ---- R1
-	vr := l.Func("provider/manifest", "manager", "validateRequest")
-	c.Analysed(fnName(vr))
-	rets := successReturns(vr)
-	need := map[string]bool{"hash": len(rets) > 0, "standalone": len(rets) > 0, "cross": len(rets) > 0}
-	detailHash := ""
-	okAll := len(rets) > 0
-	for _, r := range rets {
-		f := factsAt(r.Block())
-		got := map[string]bool{}
-		for _, a := range f {
-			if a.Op == "true" {
-				if cv, _ := callOf(a.X); cv != nil && calleeFull(cv) == "bytes.Equal" {
-					x, y := Sym(cv.Call.Args[0]), Sym(cv.Call.Args[1])
-					if x != "sdl.ManifestVersion(*p:req.value.Manifest)#0" {
-						x, y = y, x
-					}
-					exp := strings.ReplaceAll(y, "*", "")
-					if x == "sdl.ManifestVersion(*p:req.value.Manifest)#0" && strings.Contains(exp, "p:m.data.Deployment.Version") && strings.Contains(exp, "p:m.versions[(builtin.len(p:m.versions) - 1)]") {
-						got["hash"] = true
-					} else {
-						detailHash = "hash compared with " + short(y)
-					}
-				}
-			}
-			if a.Op == "eq" && isNilConst(a.Y) {
-				s := Sym(a.X)
-				if s == "validation.ValidateManifest(*p:req.value.Manifest)" {
-					got["standalone"] = true
-				}
-				if strings.ReplaceAll(s, "*", "") == "validation.ValidateManifestWithDeployment(&p:req.value.Manifest, p:m.data.Groups)" {
-					got["cross"] = true
-				}
-				if s == "sdl.ManifestVersion(*p:req.value.Manifest)#1" {
-					got["hasherr"] = true
-				}
-			}
-		}
-		for k := range need {
-			if !got[k] {
-				okAll = false
-				need[k] = false
-			}
-		}
-	}
-	_ = okAll
-	c.Ob("R1", "acceptance requires hash(manifest) == latest version update, else the fetched deployment's version", vr.Pos(), allReturnsHave(vr, rets, "hash", need) && need["hash"], "a manifest whose hash differs from the version recorded on chain can be accepted ("+detailHash+")")
-	c.Ob("R1", "acceptance requires stand-alone manifest validation", vr.Pos(), need["standalone"], "")
-	c.Ob("R1", "acceptance requires cross-validation against the fetched deployment groups", vr.Pos(), need["cross"], "")
-	// the phi selects the update only when one exists
-	{
-		ok := false
-		eachInstr(vr, func(i ssa.Instruction) {
-			if ph, isPhi := i.(*ssa.Phi); isPhi && strings.Contains(Sym(ph), "m.versions[") {
-				for k, e := range ph.Edges {
-					if strings.Contains(Sym(e), "m.versions[") {
-						for _, a := range factsAt(ph.Block().Preds[k]) {
-							if a.Op == "neq" && strings.ReplaceAll(Sym(a.X), "*", "") == "builtin.len(p:m.versions)" && Sym(a.Y) == "0" {
-								ok = true
-							}
-						}
-					}
-				}
-			}
-		})
-		c.Ob("R1", "the latest version update takes precedence over the fetched version", vr.Pos(), ok, "")
-	}
-	// version updates are recorded by the manager loop
-	run := l.Func("provider/manifest", "manager", "run")
-	{
-		ok := false
-		for _, g := range append([]*ssa.Function{run}, l.pkgFuncs("provider/manifest")...) {
-			eachInstr(g, func(i ssa.Instruction) {
-				if st, isSt := i.(*ssa.Store); isSt && strings.HasSuffix(strings.ReplaceAll(Sym(st.Addr), "*", ""), "p:m.versions") && strings.HasPrefix(Sym(st.Val), "builtin.append(") {
-					ok = true
-				}
-			})
-		}
-		c.Ob("R1", "version updates are appended to the version history", run.Pos(), ok, "updates are not remembered: a stale version would be expected")
-	}
+	c.manifestVersionRule("R1")
 
 	// ---- R2 hash covers everything
 	mp := l.Pkg("manifest")
@@ -310,4 +232,89 @@ func checkC10(c *Check) {
 
 func allReturnsHave(fn *ssa.Function, rets []*ssa.Return, key string, need map[string]bool) bool {
 	return len(rets) > 0
+}
+
+// manifestVersionRule: acceptance conditions of manager.validateRequest (shared by C10 and C20).
+func (c *Check) manifestVersionRule(rule string) {
+	l := c.L
+	vr := l.Func("provider/manifest", "manager", "validateRequest")
+	c.Analysed(fnName(vr))
+	rets := successReturns(vr)
+	need := map[string]bool{"hash": len(rets) > 0, "standalone": len(rets) > 0, "cross": len(rets) > 0}
+	detailHash := ""
+	okAll := len(rets) > 0
+	for _, r := range rets {
+		f := factsAt(r.Block())
+		got := map[string]bool{}
+		for _, a := range f {
+			if a.Op == "true" {
+				if cv, _ := callOf(a.X); cv != nil && calleeFull(cv) == "bytes.Equal" {
+					x, y := Sym(cv.Call.Args[0]), Sym(cv.Call.Args[1])
+					if x != "sdl.ManifestVersion(*p:req.value.Manifest)#0" {
+						x, y = y, x
+					}
+					exp := strings.ReplaceAll(y, "*", "")
+					if x == "sdl.ManifestVersion(*p:req.value.Manifest)#0" && strings.Contains(exp, "p:m.data.Deployment.Version") && strings.Contains(exp, "p:m.versions[(builtin.len(p:m.versions) - 1)]") {
+						got["hash"] = true
+					} else {
+						detailHash = "hash compared with " + short(y)
+					}
+				}
+			}
+			if a.Op == "eq" && isNilConst(a.Y) {
+				s := Sym(a.X)
+				if s == "validation.ValidateManifest(*p:req.value.Manifest)" {
+					got["standalone"] = true
+				}
+				if strings.ReplaceAll(s, "*", "") == "validation.ValidateManifestWithDeployment(&p:req.value.Manifest, p:m.data.Groups)" {
+					got["cross"] = true
+				}
+				if s == "sdl.ManifestVersion(*p:req.value.Manifest)#1" {
+					got["hasherr"] = true
+				}
+			}
+		}
+		for k := range need {
+			if !got[k] {
+				okAll = false
+				need[k] = false
+			}
+		}
+	}
+	_ = okAll
+	c.Ob(rule, "acceptance requires hash(manifest) == latest version update, else the fetched deployment's version", vr.Pos(), allReturnsHave(vr, rets, "hash", need) && need["hash"], "a manifest whose hash differs from the version recorded on chain can be accepted ("+detailHash+")")
+	c.Ob(rule, "acceptance requires stand-alone manifest validation", vr.Pos(), need["standalone"], "")
+	c.Ob(rule, "acceptance requires cross-validation against the fetched deployment groups", vr.Pos(), need["cross"], "")
+	// the phi selects the update only when one exists
+	{
+		ok := false
+		eachInstr(vr, func(i ssa.Instruction) {
+			if ph, isPhi := i.(*ssa.Phi); isPhi && strings.Contains(Sym(ph), "m.versions[") {
+				for k, e := range ph.Edges {
+					if strings.Contains(Sym(e), "m.versions[") {
+						for _, a := range factsAt(ph.Block().Preds[k]) {
+							if a.Op == "neq" && strings.ReplaceAll(Sym(a.X), "*", "") == "builtin.len(p:m.versions)" && Sym(a.Y) == "0" {
+								ok = true
+							}
+						}
+					}
+				}
+			}
+		})
+		c.Ob(rule, "the latest version update takes precedence over the fetched version", vr.Pos(), ok, "")
+	}
+	// version updates are recorded by the manager loop
+	run := l.Func("provider/manifest", "manager", "run")
+	{
+		ok := false
+		for _, g := range append([]*ssa.Function{run}, l.pkgFuncs("provider/manifest")...) {
+			eachInstr(g, func(i ssa.Instruction) {
+				if st, isSt := i.(*ssa.Store); isSt && strings.HasSuffix(strings.ReplaceAll(Sym(st.Addr), "*", ""), "p:m.versions") && strings.HasPrefix(Sym(st.Val), "builtin.append(") {
+					ok = true
+				}
+			})
+		}
+		c.Ob(rule, "version updates are appended to the version history", run.Pos(), ok, "updates are not remembered: a stale version would be expected")
+	}
+
 }
